@@ -317,7 +317,11 @@ class C12(Scenario):
                     if arm in ("faulty-noise", "probe") and op[0] in ("obs", "call", "meth", "cmp", "roundtrip") and rng.random() < 0.25:
                         # the query / algorithm on the program's own object is cut short
                         if rng.random() < 0.75:
-                            op = ["fault", rng.choice(["interrupt", "interrupt", "memerr"]), int(10 ** rng.uniform(0, 4.3)), op]
+                            par = int(10 ** rng.uniform(0, 4.3))
+                            if rng.random() < 0.4:
+                                # the n-th line event inside one state-carrying module
+                                par = {"n": int(10 ** rng.uniform(0, 2.5)), "files": [rng.choice(["form.py", "integral.py", "measure.py", "algorithms/signature.py", "algorithms/domain_analysis.py", "algorithms/formdata.py", "algorithms/analysis.py", "utils/sorting.py", "sorting.py", "algorithms/renumbering.py"])]}
+                            op = ["fault", rng.choice(["interrupt", "interrupt", "memerr"]), par, op]
                         else:
                             op = ["fault", "stack", rng.choice([4, 8, 15, 30, 60, 120]), op]
                     inserts.append((rng.randint(lo, npos), 10**6 + j, {"k": "noise", "n": ni, "op": op, "probe": 1}))
